@@ -23,7 +23,7 @@ type metadataStoreIndex struct {
 	devices                  map[string]secretstore.MemberDevice
 	handledEvents            map[string]struct{}
 	sentSecrets              map[string]struct{}
-	admins                   map[crypto.PubKey]struct{}
+	admins                   map[string]crypto.PubKey
 	contacts                 map[string]*AccountContact
 	contactsFromGroupPK      map[string]*AccountContact
 	groups                   map[string]*accountGroup
@@ -633,11 +633,11 @@ func (m *metadataStoreIndex) handleMultiMemberInitialMember(event proto.Message)
 		return errcode.ErrCode_ErrDeserialization.Wrap(err)
 	}
 
-	if _, ok := m.admins[pk]; ok {
-		return errcode.ErrCode_ErrInternal
+	if _, ok := m.admins[string(e.MemberPk)]; ok {
+		return nil
 	}
 
-	m.admins[pk] = struct{}{}
+	m.admins[string(e.MemberPk)] = pk
 
 	return nil
 }
@@ -671,7 +671,7 @@ func (m *metadataStoreIndex) listAdmins() []crypto.PubKey {
 	admins := make([]crypto.PubKey, len(m.admins))
 	i := 0
 
-	for admin := range m.admins {
+	for _, admin := range m.admins {
 		admins[i] = admin
 		i++
 	}
@@ -769,7 +769,7 @@ func newMetadataIndex(ctx context.Context, g *protocoltypes.Group, md secretstor
 		m := &metadataStoreIndex{
 			members:                map[string][]secretstore.MemberDevice{},
 			devices:                map[string]secretstore.MemberDevice{},
-			admins:                 map[crypto.PubKey]struct{}{},
+			admins:                 map[string]crypto.PubKey{},
 			sentSecrets:            map[string]struct{}{},
 			handledEvents:          map[string]struct{}{},
 			contacts:               map[string]*AccountContact{},
